@@ -63,6 +63,8 @@ class Policy:
         if n <= 1:
             return 0
         k = self.kind
+        if k == "idle":
+            return 0
         if k == "sweep":
             self.i += 1
             return self.i % n
